@@ -97,7 +97,6 @@ func solveSlowStart(model nextroute.Model, bc *budgetCase, calls *atomic.Int64) 
 	}
 }
 
-
 func runBudget(o *Out, _ *rand.Rand, thorough bool) {
 	o.Meta.Rule = "a case = generated instance × (iterations, duration, parallel runs, start solutions, deterministic, context kind, " +
 		"per-run iteration requests); non-trivial = a case in which at least two runs were granted iterations or the budget " +
@@ -267,13 +266,13 @@ func runBudget(o *Out, _ *rand.Rand, thorough bool) {
 }
 
 type budgetResult struct {
-	iterated      int64
-	reported      int64
-	grants        []int
-	requestsAsked []int
-	closed        bool
-	cutShort      bool
-	closedAfter   time.Duration
+	iterated       int64
+	reported       int64
+	grants         []int
+	requestsAsked  []int
+	closed         bool
+	cutShort       bool
+	closedAfter    time.Duration
 	pan, err, dump string
 }
 
@@ -466,8 +465,8 @@ func runDetSched(o *Out, _ *rand.Rand, thorough bool) {
 			// protocol invariant for ONE parallel run: a run starts from the best of what the previous runs reported
 			sh := scheduleHook(sch.delays, sch.nth)
 			var mu sync.Mutex
-			copied := map[int]float64{}    // run → score it started from (copy of the shared best)
-			reported := map[int]float64{}  // run → best score it reported
+			copied := map[int]float64{}   // run → score it started from (copy of the shared best)
+			reported := map[int]float64{} // run → best score it reported
 			// … and for any number of runs in deterministic mode: the cycles do not overlap — when a run of cycle k starts,
 			// every run of an earlier cycle has ended (the dispatcher's barrier)
 			doneRuns := map[int]bool{}
@@ -586,7 +585,10 @@ func runRepro(o *Out, _ *rand.Rand, thorough bool) {
 			// several capacity resources with quantities of both signs on a fleet of small and large vehicles, many ties: the
 			// per-resource constraints are built by ranging over a map — any difference in what they answer (a hint, an
 			// early exit) must not reach the random stream
-			p = Profile{MaxStops: 10 + rng.Intn(8), MaxVehicles: 3, MultiRes: true, Capacity: true}
+			// (one resource is only ever loaded — its constraint is in the regime that answers
+			// "skip the vehicle", the others are not: which of them is asked first decides whether the tie-break draws of
+			// the remaining positions are made, E46)
+			p = Profile{MaxStops: 10 + rng.Intn(8), MaxVehicles: 3, MultiRes: true, Capacity: true, OneSidedRes: true}
 			div = 100
 		}
 		if ci%8 == 7 {
@@ -609,6 +611,10 @@ func runRepro(o *Out, _ *rand.Rand, thorough bool) {
 		}
 		c.Solve = &CSolve{Runs: 1, Starts: rng.Intn(2), Det: rng.Intn(2) == 0, Iters: 300 + rng.Intn(500),
 			Mode: []string{"single", "parallel-norestart", "parallel"}[ci%3]}
+		if p.MultiRes && c.Solve.Mode == "parallel" {
+			// (a difference in the as-shipped parallel mode would be put down to the listed finding E25)
+			c.Solve.Mode = "single"
+		}
 		if ci%8 == 7 {
 			c.Grid = true
 			c.feature("stops-on-a-grid")
